@@ -8,9 +8,9 @@ B=/verif/build/$FL
 OUT=/verif/build/drivers/$FL
 mkdir -p $OUT
 case $FL in
-  rel)  FLAGS="-O1";;
-  asan) FLAGS="-O1 -g -fsanitize=address,undefined -fno-omit-frame-pointer";;
-  tsan) FLAGS="-O1 -g -fsanitize=thread -fno-omit-frame-pointer";;
+  rel)  FLAGS="-O1 -DNDEBUG";;
+  asan) FLAGS="-O1 -g -DNDEBUG -fsanitize=address,undefined -fno-omit-frame-pointer";;
+  tsan) FLAGS="-O1 -g -DNDEBUG -fsanitize=thread -fno-omit-frame-pointer";;
 esac
 for src in harness/drivers/*.cc; do
   name=$(basename $src .cc)
